@@ -764,3 +764,83 @@ where
         marker: PhantomData,
     }
 }
+
+/// Verification hooks (feature `verif_hooks`): plain wrappers around the private path functions.
+#[cfg(feature = "verif_hooks")]
+#[doc(hidden)]
+pub mod __verif {
+    use super::*;
+
+    pub fn get_locale_from_path<L: Locale>(path: &str, base_path: &str) -> Option<L> {
+        super::get_locale_from_path(path, base_path)
+    }
+
+    pub fn match_path_segments(
+        segments: &[&str],
+        old_segments: &[PathSegment],
+    ) -> Option<HashSet<usize>> {
+        super::match_path_segments(segments, old_segments)
+    }
+
+    pub fn localize_path(
+        path: &str,
+        old_locale_segments: &[Vec<PathSegment>],
+        new_locale_segments: &[Vec<PathSegment>],
+    ) -> Option<String> {
+        let mut path_builder = PathBuilder::default();
+        super::localize_path(
+            path,
+            old_locale_segments,
+            new_locale_segments,
+            &mut path_builder,
+        )?;
+        Some(path_builder.build())
+    }
+
+    /// `get_new_path` with the `Location` built from plain strings (must run under an `Owner`).
+    pub fn get_new_path<L: Locale>(
+        pathname: &str,
+        search: &str,
+        hash: &str,
+        base_path: &str,
+        new_locale: L,
+        locale: Option<L>,
+        segments: HashMap<L, Vec<Vec<PathSegment>>>,
+    ) -> String {
+        let (pathname, search, hash) = (pathname.to_string(), search.to_string(), hash.to_string());
+        let location = Location {
+            pathname: Memo::new(move |_| pathname.clone()),
+            search: Memo::new(move |_| search.clone()),
+            query: Memo::new(move |_| Default::default()),
+            hash: Memo::new(move |_| hash.clone()),
+            state: RwSignal::new(Default::default()).read_only(),
+        };
+        let segments = RouteSegments(Arc::new(Mutex::new(segments)));
+        super::get_new_path(&location, base_path, new_locale, locale, segments)
+    }
+
+    /// The real `I18nRoute` routes together with the per-locale segment table they computed.
+    pub fn i18n_routing_with_segments<L: Locale, View, Chil>(
+        base_path: &'static str,
+        children: RouteChildren<Chil>,
+        ssr_mode: SsrMode,
+        view: View,
+    ) -> (
+        impl MatchNestedRoutes + Clone + Send + 'static,
+        HashMap<L, Vec<Vec<PathSegment>>>,
+    )
+    where
+        View: ChooseView + Clone + Send + Sync,
+        Chil: MatchNestedRoutes + 'static + Send + Sync + Clone,
+    {
+        let children = children.into_inner();
+        let base_route = NestedRoute::new(StaticSegment(""), view)
+            .ssr_mode(ssr_mode)
+            .child(children);
+        let segments = RouteSegments::<L>::default();
+        let routes = I18nNestedRoute::new(base_path, base_route, segments.clone());
+        let inner_segments = routes.generate_routes_for_each_locale();
+        *segments.0.lock().unwrap() = inner_segments.clone();
+        (routes, inner_segments)
+    }
+}
